@@ -691,6 +691,8 @@ class DiHypergraph:
                     raise XGIError("Directed edge must be a list or tuple!")
 
                 try:
+                    # tail and head may be one-shot iterators
+                    tail, head = list(tail), list(head)
                     dimembers = {"in": set(tail), "out": set(head)}
                 except TypeError as e:
                     raise XGIError("Invalid ebunch format") from e
@@ -756,8 +758,9 @@ class DiHypergraph:
                 warn(f"uid {idx} already exists, cannot add edge {members}.")
             else:
                 try:
-                    tail = members[0]
-                    head = members[1]
+                    # tail and head may be one-shot iterators
+                    tail = list(members[0])
+                    head = list(members[1])
                     dimembers = {"in": set(tail), "out": set(head)}
                 except TypeError as e:
                     raise XGIError("Invalid ebunch format") from e
